@@ -127,7 +127,11 @@ func c15EmptySubs(l *poly.Location, r *rand.Rand) {
 func randAnnotated(r *rand.Rand) poly.Sequence {
 	var s poly.Sequence
 	L := 1 + r.Intn(400)
+	empty := r.Intn(15) == 0 // an annotated record without sequence letters: its features span 0..0
 	s.Sequence = randCase(r, randString(r, oracle.IUPACCodes, L), 0.5)
+	if empty {
+		s.Sequence = ""
+	}
 	m := &s.Meta
 	m.Name, m.GffVersion, m.Type, m.Date = uniText(r, 3), uniText(r, 1), uniText(r, 2), uniText(r, 2)
 	m.RegionStart, m.RegionEnd, m.Size = r.Intn(1000)-10, r.Intn(100000), r.Intn(1<<30)-5
@@ -167,10 +171,16 @@ func randAnnotated(r *rand.Rand) poly.Sequence {
 	for i := 0; i < nf; i++ {
 		x := randLoc(r, r.Intn(5), L)
 		loc := toStruct(x, r.Intn(2) == 0)
+		if empty {
+			loc = poly.Location{}
+			if r.Intn(2) == 0 {
+				loc = poly.Location{Join: true, SubLocations: []poly.Location{{}, {Complement: r.Intn(2) == 0}}}
+			}
+		}
 		if r.Intn(4) == 0 {
 			c15EmptySubs(&loc, r) // a span may carry an empty, non-nil list of sub locations: still a span
 		}
-		if r.Intn(6) == 0 {
+		if r.Intn(6) == 0 && !empty {
 			// a node that is neither join nor complement and holds exactly one sub location is a value like any
 			// other (it reports its child's bases); it must come back as it was written
 			loc = poly.Location{Start: r.Intn(L), End: r.Intn(L + 1), FivePrimePartial: r.Intn(3) == 0, ThreePrimePartial: r.Intn(3) == 0, SubLocations: []poly.Location{loc}}
@@ -265,6 +275,14 @@ func c15RoundTrip(w *mon.W, id string, x poly.Sequence, origin, tmp string, viaF
 	defer func() { c15Earlier = append(c15Earlier, keep) }()
 	for i := range x.Features {
 		want, err := fromStruct(x.Features[i].SequenceLocation).Eval(x.Sequence)
+		if err != nil && x.Sequence == "" {
+			// a record without sequence letters: a feature spanning 0..0 reports no bases, before and after
+			var b0 string
+			if mon.Try(func() { b0 = x.Features[i].GetSequence() }) != "" || b0 != "" {
+				continue
+			}
+			want, err = "", nil
+		}
 		if err != nil {
 			continue // location outside the sequence (parser outputs over odd files): not this property's subject
 		}
